@@ -32,6 +32,7 @@ def main():
     if not checks and os.path.exists(meta):
         m = json.load(open(meta))
         checks = [m['property']] if isinstance(m.get('property'), str) else list(m.get('property', []))
+        checks += [c for c in m.get('also_run', []) if c not in checks]
     if not checks:
         checks = ALL
     tmp = tempfile.mkdtemp(prefix='segno-mutant-', dir='/tmp')
